@@ -148,7 +148,7 @@ def cap_hit(sx, tsel, psel, wsel, polsel, gamma, cap):
 
 
 def jobs(tier):
-    o = dict(timeout_ms=15000, budget_s=240, max_paths=2000)      # (a case needs ~0.1 s of solver time on the unchanged tree)
+    o = dict(timeout_ms=15000, budget_s=(120 if tier == 'quick' else 600), max_paths=2000)      # (a case needs ~0.1 s of solver time on the unchanged tree)
     for tsel in range(len(TENSORS)):
         for wsel in (0, 2):
             yield ('cap_hit', dict(tsel=tsel, psel=1, wsel=wsel, polsel=1, gamma='1/2', cap=1), o)
